@@ -662,6 +662,14 @@ class DateTimeStamp(DateTime):
         r'(?P<tzinfo>Z|[+-](?:(?:0[0-9]|1[0-3]):[0-5][0-9]|14:00))$'
     )
 
+    def __init__(self, year: int, month: int, day: int,
+                 hour: int = 0, minute: int = 0, second: int = 0,
+                 microsecond: int = 0,
+                 tzinfo: datetime.tzinfo | None = None) -> None:
+        if tzinfo is None:
+            raise ValueError('xs:dateTimeStamp requires a timezone')
+        super().__init__(year, month, day, hour, minute, second, microsecond, tzinfo)
+
 
 class Date(AbstractDateTime):
     name = 'date'
